@@ -157,6 +157,8 @@ class Ctx:
                   notes=self.notes, inconclusive=self.inconclusive)
         # evidence describes runs against /repo only; runs against a scratch tree (seeded changes) go to out/
         evdir = os.path.join(VERIF, "evidence") if REPO == "/repo" else os.path.join(OUTDIR, "evidence-" + os.path.basename(REPO))
+        if getattr(self, "replaying", False):
+            evdir = os.path.join(OUTDIR, "evidence-replay")       # a replay says nothing about coverage
         os.makedirs(evdir, exist_ok=True)
         with open(os.path.join(evdir, self.prop + ".json"), "w") as f:
             json.dump(ev, f, indent=1, default=str)
@@ -199,10 +201,19 @@ def main(registry):
     if prop not in registry:
         print("unknown property", prop)
         sys.exit(2)
+    replay = None
+    if "--replay" in sys.argv:
+        replay = json.load(open(sys.argv[sys.argv.index("--replay") + 1]))
+        seed, tier = int(replay.get("seed", seed)), replay.get("tier", tier)
     c = Ctx(prop, tier, seed)
+    c.replaying = replay is not None
     rc = 2
     try:
-        rc = registry[prop](c)
+        if replay is not None:
+            import replay as R
+            rc = R.replay(c, replay, registry)
+        else:
+            rc = registry[prop](c)
     except Inconclusive as e:
         print("INCONCLUSIVE: %s" % e)
         rc = 2
